@@ -317,7 +317,9 @@ def check_c06(case, r):
                     c_want = sum((o[4] * dt_h * eta / cap) if o[0] == "load" else (-o[4] * dt_h / (eta * cap))
                                  for o in c)
                     c_net = sum(o[4] if o[0] == "load" else -o[4] for o in c)
-                    kinds = set(o[0] for o in c if abs(o[4]) > EPS)
+                    # (an operation below EPS in power still moves the SoC by more than the tolerance of this clause:
+                    # a 5e-6 kW V2G correction after a 5.5 kW charge surfaced with overdue vehicles in the grammar)
+                    kinds = set(o[0] for o in c)
                     if len(kinds) == 2 and close(s1 - s0, c_want, rel=1e-7, ab=1e-9) and close(p, c_net):
                         ok = True
                 if not ok:
